@@ -93,9 +93,17 @@ def State.link (s : State) (ifID : Nat) : Option Link :=
 def setSession (ls : List Link) (i : Nat) (f : St → St) : List Link :=
   ls.modify i fun l => { l with session := l.session.map f }
 
+/-- the rule of `shouldDiscard` (RFC 5880 6.8.6) about the Your Discriminator field: a control message
+    with Your Discriminator 0 is acceptable only if its State is Down or AdminDown -/
+def acceptsYourDisc (yourDisc : Nat) (remote : St) : Bool :=
+  !(yourDisc == 0 && remote != .adminDown && remote != .down)
+
 inductive Event where
   /-- a BFD control message accepted by `shouldDiscard`, received over the link behind `ifID` -/
   | recv (ifID : Nat) (remote : St)
+  /-- a BFD control message, otherwise well-formed, carrying the given Your Discriminator; it reaches the
+      session only if `acceptsYourDisc` -/
+  | recvDisc (ifID : Nat) (remote : St) (yourDisc : Nat)
   /-- the detection time of the session of that link elapsed -/
   | timeout (ifID : Nat)
   /-- a SCION- or EPIC-path packet that came in over a link reporting `ingress` and would leave through
@@ -139,6 +147,14 @@ def step (s : State) : Event → State × Out
     | some i =>
       let s' := { s with links := setSession s.links i (fun st => recvStep st remote) }
       (s', .bfd (sessionOf s' ifID))
+  | .recvDisc ifID remote yourDisc =>
+    match s.linkIdx ifID with
+    | none => (s, .bfd none)
+    | some i =>
+      if acceptsYourDisc yourDisc remote then
+        let s' := { s with links := setSession s.links i (fun st => recvStep st remote) }
+        (s', .bfd (sessionOf s' ifID))
+      else (s, .bfd (sessionOf s ifID))                 -- discarded: nothing changes
   | .timeout ifID =>
     match s.linkIdx ifID with
     | none => (s, .bfd none)
